@@ -753,7 +753,7 @@ def run_sharing(ck, wd, thorough, rng):
 
     def shard(i):
         e_ = vlib.harness_env("plain")
-        e_["BXDECAY0_DBD_GA_DATA_DIR"] = os.path.join(vlib.repo(), "resources")
+        e_["BXDECAY0_DBD_GA_DATA_DIR"] = os.path.join(vlib.repo(), "resources")      # the shipped mock table Test/g0 (version ".")
         return vlib.sh([exe, "--mode", "baton", "--events", "25" if thorough else "12"], input="\n".join("%s %s" % p for p in pairs[i::nsh]) + "\n",
                        timeout=3000, env=e_, drop_stderr=True)
     res = []
@@ -793,9 +793,18 @@ def run_sharing(ck, wd, thorough, rng):
     # free-running threads over every configuration, ThreadSanitizer
     exe_t = vlib.compile_harness("share_sched", ["harness/share_sched.cc"], "tsan")
     env = vlib.harness_env("tsan")
-    env["BXDECAY0_DBD_GA_DATA_DIR"] = os.path.join(vlib.repo(), "resources")      # the shipped mock table Test/g0
-    rc, out = vlib.sh([exe_t, "--mode", "free", "--threads", "4", "--events", "4" if thorough else "2"], input="\n".join(extra_cfg * 3 + allcfg + extra_cfg) + "\n",
-                      timeout=1500, env=env)
+    # a generated dataset tree (the repository's own encoder): Mo100, Se82 and Test tables of both kinds, so that gA generators of
+    # decay0_generator (inverse transform: the compact c.d.f. loader) initialise at the same moment on all threads
+    gad = os.path.join(wd, "ga-share")
+    for iso_ in ("Mo100", "Se82", "Test"):
+        rcg, outg = vlib.sh(["python3", os.path.join(vlib.ROOT, "tools", "mk_ga_dataset.py"), gad, iso_, "g0"], timeout=120)
+        if rcg != 0:
+            raise vlib.InfraError("mk_ga_dataset failed: " + outg[-400:])
+    env["BXDECAY0_DBD_GA_DATA_DIR"] = gad
+    env["VERIF_GA_VERSION"] = "v1.0"
+    sync_cfg = ["!Mo100:0:21", "!Se82:0:21", "!Mo100:0:21", "!GATEST", "!Se82:0:21", "!Mo100:0:4", "!Cd106:0:10"]
+    rc, out = vlib.sh([exe_t, "--mode", "free", "--threads", "4", "--events", "4" if thorough else "2"],
+                      input="\n".join(sync_cfg * (3 if thorough else 2) + extra_cfg * 3 + allcfg + extra_cfg) + "\n", timeout=1500, env=env)
     if rc == 124:
         raise vlib.InfraError("free-running sharing run timed out")
     js = [json.loads(l) for l in out.splitlines() if l.startswith("{")]
